@@ -170,6 +170,20 @@ func (e *Env) toIntTerm(v Value) *Term {
 
 func (e *Env) convert(v Value, to types.Type) Value {
 	switch s := v.(type) {
+	case AbsV:
+		if s.T.S == UnS("Float") {
+			if b, ok := basicOf(to); ok && b.Info()&types.IsFloat != 0 {
+				return AbsV{s.T, to}
+			}
+			if _, ok := intInfoOf(to); ok && e.R().sortOf(to) == IntS {
+				// float -> integer: some value of the target type (the result for out-of-range values is
+				// implementation-defined in Go and nothing is assumed about the in-range case either)
+				r := App("int_of_float_"+types.TypeString(to, nil), IntS, s.T)
+				e.st.assume(e.R().rangeOf(r, to))
+				return Scalar{r, to}
+			}
+		}
+		return AbsV{s.T, to}
 	case UConst:
 		if b, ok := basicOf(to); ok {
 			if b.Info()&types.IsInteger != 0 {
@@ -280,8 +294,6 @@ func (e *Env) convert(v Value, to types.Type) Value {
 		return e.zeroValue(to, true)
 	case ErrV:
 		return s
-	case AbsV:
-		return AbsV{s.T, to}
 	case StructV:
 		return StructV{s.F, to}
 	case PtrV:
